@@ -525,6 +525,19 @@ class PlExpr:
             return PlExpr(self.nv, "row", ("over", self.node, _node_of(partition_by), None), self.pltype, self.order_id)
         return self._win("over", partition_by=_node_of(partition_by), order_by=_node_of(order_by))
 
+    def is_in(self, other, nulls_equal=False):
+        if not isinstance(other, _PlList):
+            raise Unsupported("polars model: is_in with a non-list argument")
+        if nulls_equal:
+            raise Unsupported("polars model: is_in(nulls_equal=True)")
+        _ax("polars: x.is_in(list) is null iff x is null; otherwise true iff some non-null list element equals x (null elements never match and never make the result null)")
+        hit = z3.BoolVal(False)
+        x = self.nv
+        for e in other.items:
+            a, b = N.unify(x, e.nv)
+            hit = z3.Or(hit, z3.And(z3.Not(b.null), a.val == b.val))
+        return self._mk(NV(x.null, hit), "is_in", *other.items, pltype=Boolean)
+
     def alias(self, name):
         return PlExpr(self.nv, self.kind, ("alias", self.node, name), self.pltype, self.order_id)
 
@@ -551,6 +564,14 @@ def _node_of(v):
 
 
 Expr = PlExpr
+
+
+def _const_str(y):
+    if isinstance(y, str):
+        return y
+    if isinstance(y, PlExpr) and y.node[0] == "lit" and isinstance(y.node[1], str):
+        return y.node[1]
+    return None
 
 
 class _StrNS:
@@ -583,8 +604,10 @@ class _StrNS:
     def replace_all(self, pattern, value, literal=False):
         if isinstance(literal, Sym):
             literal = bool(literal)
-        if literal:
-            _ax("polars: str.replace_all(p, v, literal=True) replaces every literal occurrence")
+        REGEX_META = set(".^$*+?()[]{}|\\")
+        pc, vc_ = _const_str(pattern), _const_str(value)
+        if literal or (pc is not None and pc != "" and not (set(pc) & REGEX_META) and vc_ is not None and "$" not in vc_):
+            _ax("polars: str.replace_all(p, v, literal=True) replaces every literal occurrence; so does literal=False when p has no regex metacharacter and v no `$`")
             f = z3.Function("replace_all_literal", STR, STR, STR, STR)
         else:
             _ax("polars: str.replace_all(p, v, literal=False) interprets p as a regular expression (uninterpreted regex_replace_all)")
@@ -794,6 +817,15 @@ def min_horizontal(*exprs):
 def coalesce(*exprs):
     _ax("polars: coalesce returns the first non-null argument")
     return _fold(exprs, N.coalesce2, "coalesce")
+
+
+class _PlList:
+    def __init__(self, items):
+        self.items = items
+
+
+def concat_list(*exprs):
+    return _PlList(_flatten(exprs))
 
 
 def sum_horizontal(*exprs):
